@@ -227,6 +227,15 @@ func (c *Ctx) sel(arr T, idx T) T {
 		if d, ok := c.defOf[s]; ok {
 			s = d
 		}
+		if m, isIte := c.ites[s]; isIte && strings.HasPrefix(idx.S, "(selem ") {
+			// a heap merged at a join, read at an element of a slice of structs:
+			// read both sides (keeps such reads in terms of the unmodified heap)
+			x, y := c.sel(m[1], idx), c.sel(m[2], idx)
+			if x.S == y.S {
+				return x
+			}
+			return ite(m[0], x, y)
+		}
 		info, ok := c.stores[s]
 		if !ok {
 			break
@@ -260,6 +269,18 @@ func (c *Ctx) provablyDistinct(a, b T) bool {
 			if (fa && fb) || (fa && pb && c.isParamID(bb)) || (fb && pa && c.isParamID(ba)) {
 				return true
 			}
+		}
+	}
+	// an element of a slice of structs is never the same object as a separately
+	// allocated one (solver side: is_elem tags, see sliceElemObj / newID)
+	ea, eb := strings.HasPrefix(a.S, "(selem "), strings.HasPrefix(b.S, "(selem ")
+	if ea != eb {
+		other := a.S
+		if ea {
+			other = b.S
+		}
+		if bo, _, ok := splitBaseOff(other); ok && strings.HasPrefix(bo, "alloc") {
+			return true
 		}
 	}
 	if ga, ok := c.distinctGrp[a.S]; ok {
